@@ -34,11 +34,21 @@ class World:
     def config(self, case=None, data=None, cfgdir=None):
         return build.make_config(case or self.case, data or self.data, cfgdir or self.cfgdir)
 
+    def config_with(self, context):
+        return build.make_config(self.case, self.data, self.cfgdir, context=context)
+
     def chain(self, parameter_mode=True, **kw):
         return self.config(**kw).chain(parameter_mode=parameter_mode)
 
     def model(self, case=None, parameter_mode=True, cfgdir=None):
         return model.build_tasks(case or self.case, cfgdir or self.cfgdir, parameter_mode)
+
+
+def _ctx_desc(case, layer):
+    d = build.context_layer_data(case, layer)
+    if layer.get('nested'):
+        d['uses(nested)'] = [{'as': s.get('ns'), 'context': _ctx_desc(case, s['layer'])} for s in layer['nested']]
+    return d
 
 
 def describe(case):
@@ -50,7 +60,7 @@ def describe(case):
             'configs': {pn: build.node_data(case, '<cfgdir>', nd, i) for pn, nd in f['parts'].items()}})
             for i, f in enumerate(case['files'])},
         'root': case['files'][case['root']]['name'] + ('#' + case['root_part'] if case.get('root_part') else ''),
-        'context': [build.context_layer_data(case, l) for l in case['context']['layers']] if case.get('context') else None,
+        'context': [_ctx_desc(case, l) for l in case['context']['layers']] if case.get('context') else None,
         'global_vars': case.get('global_vars'),
     }
 
@@ -90,6 +100,19 @@ def check_task_set(case, chain, mtasks):
                                      'case': describe(case)})
 
 
+def param_matches(chain, mtasks, n, k):
+    """Library value of parameter k of task n equals the model's (ignored parameters of shared objects: any mount's)."""
+    lt, mt = chain.tasks[n], mtasks[n]
+    got = lt.params[k]
+    if canon_param(got) == canon_param(mt.params[k]):
+        return True
+    spec = [p for p in mt.spec['params'] if p['name'] == k][0]
+    if spec.get('ignore'):
+        alts = [mtasks[m].params[k] for m in mtasks if chain.tasks[m] is lt]
+        return any(canon_param(got) == canon_param(a) for a in alts)
+    return False
+
+
 def check_params(case, chain, mtasks):
     for n, mt in mtasks.items():
         lt = chain.tasks[n]
@@ -104,6 +127,13 @@ def check_params(case, chain, mtasks):
                 raise Violation('parameter-access-raised', {'task': n, 'param': k, 'error': repr(e),
                                                             'case': describe(case)})
             if canon_param(got) != canon_param(want):
+                spec = [p for p in mt.spec['params'] if p['name'] == k][0]
+                if spec.get('ignore'):
+                    # a task object shared by several names (same computation) legitimately carries the *ignored*
+                    # parameter values of the mount that created it
+                    alts = [mtasks[m].params[k] for m in mtasks if chain.tasks[m] is lt]
+                    if any(canon_param(got) == canon_param(a) for a in alts):
+                        continue
                 raise Violation('parameter-value', {'task': n, 'param': k, 'got': repr(got)[:200],
                                                     'want': repr(want)[:200] if not isinstance(want, model.Obj)
                                                     else want.tcv_canon(), 'case': describe(case)})
